@@ -19,8 +19,11 @@ META = {
                  "pair, canonical state merging, compared step by step with a real local file",
     "text": "Modes {r, r+, w, w+, a, a+, x} x bufsize {-1, 0, 1, 2, 7, 65536} x pipelined {off, on} (quick: 28 of the "
             "84 configurations), all programs up to depth 3 (quick) / 4, and 5 for 28 configurations (thorough) over "
-            "15 (quick) / 18 (thorough) operations read(n)/read()/readline()/readline(n)/readlines()/write/"
-            "seek(SET,CUR,END)/tell/flush/truncate(shrinking: 2, extending: 12; both in both tiers)/close on an "
+            "18 (quick) / 21 (thorough) operations read(n)/read()/readline()/readline(n)/readlines()/write/"
+            "seek(SET,CUR,END)/[failing operation dimension] seek to a negative target, one per whence (seek(-1,SET), "
+            "seek(-40,CUR), seek(-40,END): must raise as on the local file and leave position, read-ahead and pending "
+            "writes as the local file has them, judged by everything that follows)/tell/flush/"
+            "truncate(shrinking: 2, extending: 12; both in both tiers)/close on an "
             "8-byte three-line file (absent for w, w+, x), merged "
             "on the complete state of BufferedFile + served file + server handle + reference file; each program is "
             "additionally closed and the final bytes compared.  Returned data, tell(), raise/no-raise, bytes after "
@@ -76,12 +79,19 @@ def size_payloads():
 WE, WB, WC, WD = size_payloads()
 
 
+# targets below zero from every position / file size a program of the stated depth can reach (<= 20 bytes)
+RAISING_SEEKS = [("seek", -1, 0), ("seek", -40, 1), ("seek", -40, 2)]
+
+
 def alphabet(tier):
     ops = [
         ("read", 1), ("read", 3), ("read", None), ("readline", None), ("readline", 2),
         ("write", W1), ("write", W2), ("seek", 0, 0), ("seek", 1, 1), ("seek", -1, 2),
         ("tell",), ("flush",), ("truncate", 2), ("truncate", 12), ("close",),
     ]
+    # [failing operation dimension] seeks whose target is negative, one per whence: they must raise like on the
+    # local file and leave position, read-ahead and pending writes as the local file has them afterwards
+    ops += RAISING_SEEKS
     if tier != "quick":
         ops += [("read", 0), ("readlines",), ("seek", 2, 0)]
     return ops
@@ -584,7 +594,8 @@ def main(tier):
         "handle offsets, reference content+position); transition = one file operation, executed by replaying "
         "the whole program on a fresh real client/server pair and on a real local file; every transition is "
         "validated against the implementation; nontrivial = distinct (configuration, sequence of returned "
-        "values/raises, final bytes) among conforming programs; payload size dimension = a second pass whose "
+        "values/raises, final bytes) among conforming programs; failing operation dimension = the alphabet holds one "
+        "seek with a negative target per whence (raises on both sides, the program goes on); payload size dimension = a second pass whose "
         "alphabet holds writes smaller than / equal to / spanning two / spanning three WRITE requests "
         "(MAX_REQUEST_SIZE = 8) plus the position/data observers, on every write-capable mode",
         ["SFTPFile.MAX_REQUEST_SIZE = 8 (class-level configuration)",
